@@ -162,6 +162,52 @@ func (x *Exec) modelCall(fr *Frame, st *State, fn *ssa.Function, name string, ar
 		return x.freshResultNonNil(st, resT, "log"), true
 	case "encoding/json.Unmarshal":
 		return x.jsonUnmarshal(fr, st, args, resT, pos), true
+	case "strings.IndexByte":
+		return scalar(resT, x.indexByte(args[0].Term, args[1].Term)), true
+	case "strings.LastIndexByte":
+		return scalar(resT, x.lastIndexByte(args[0].Term, args[1].Term)), true
+	case "strings.Index", "strings.LastIndex", "strings.Contains":
+		if c, ok := x.singleByteLit(args[1].Term); ok {
+			switch name {
+			case "strings.Index":
+				return scalar(resT, x.indexByte(args[0].Term, c)), true
+			case "strings.LastIndex":
+				return scalar(resT, x.lastIndexByte(args[0].Term, c)), true
+			default:
+				return scalar(resT, Ge(x.indexByte(args[0].Term, c), IntLit(0))), true
+			}
+		}
+	case "strings.ContainsRune":
+		if args[1].Term.Op == "int" && args[1].Term.Int.IsInt64() && args[1].Term.Int.Int64() < 128 {
+			return scalar(resT, Ge(x.indexByte(args[0].Term, args[1].Term), IntLit(0))), true
+		}
+	case "strings.Cut":
+		if c, ok := x.singleByteLit(args[1].Term); ok {
+			s := args[0].Term
+			idx := x.indexByte(s, c)
+			found := Ge(idx, IntLit(0))
+			before := Ite(found, x.substr(s, IntLit(0), idx), s)
+			after := Ite(found, x.substr(s, Add(idx, IntLit(1)), x.slen(s)), x.strLit(""))
+			tt := resT.(*types.Tuple)
+			return &Value{K: KTuple, T: resT, Fields: []*Value{scalar(tt.At(0).Type(), before), scalar(tt.At(1).Type(), after), scalar(tt.At(2).Type(), found)}}, true
+		}
+	case "strings.SplitN":
+		// SplitN(s, sep, 2) with a one-byte literal separator
+		if c, ok := x.singleByteLit(args[1].Term); ok && args[2].Term.Op == "int" && args[2].Term.Int.Int64() == 2 {
+			s := args[0].Term
+			idx := x.indexByte(s, c)
+			found := Ge(idx, IntLit(0))
+			ref := x.freshRef(st, "split")
+			key := "E:string/"
+			srt := ArraySort(RefSort, ArraySort(IntSort, StrSort))
+			arr := x.heapArr(st, key, srt)
+			p0 := Ite(found, x.substr(s, IntLit(0), idx), s)
+			p1 := x.substr(s, Add(idx, IntLit(1)), x.slen(s))
+			row := Store(Store(x.zeroOfSort(ArraySort(IntSort, StrSort)), IntLit(0), p0), IntLit(1), p1)
+			st.heap[key] = Store(arr, ref, row)
+			x.noteWrite(key, ref)
+			return &Value{K: KSlice, T: resT, Ref: ref, Off: IntLit(0), Len: Ite(found, IntLit(2), IntLit(1))}, true
+		}
 	case "strings.HasPrefix":
 		return scalar(resT, x.hasPrefixTerm(args[0].Term, args[1].Term)), true
 	case "strings.HasSuffix":
@@ -193,9 +239,23 @@ func (x *Exec) globalInit(fr *Frame, st *State, p *Pointer, t types.Type) *Value
 	}
 	gi := x.globals[p.Global]
 	if gi == nil {
+		// also try the short form pkgname.Var
+		short := p.Global
+		if i := strings.LastIndex(short, "/"); i >= 0 {
+			short = short[i+1:]
+		}
+		gi = x.globals[short]
+	}
+	if gi == nil {
 		return nil
 	}
-	return gi(st)
+	v := gi(st)
+	if v != nil && v.T != nil && !types.Identical(under(v.T), under(t)) {
+		v = scalar(t, v.Term)
+	} else if v != nil {
+		v = scalar(t, v.Term)
+	}
+	return v
 }
 
 var _ = fmt.Sprintf
